@@ -165,7 +165,21 @@ var vL2Commands = [][]string{
 	{"SET", "$K", "$S"}, {"SET", "$K", "$S", "NX"}, {"SET", "$K", "$S", "XX", "GET"}, {"SET", "$K", "$S", "KEEPTTL"}, {"SET", "$K", "$S", "EX", "$I"}, {"SET", "$K", "$S", "PXAT", "$I"},
 	{"SETBIT", "$K", "$I", "1"}, {"SETEX", "$K", "$I", "$S"}, {"SETNX", "$K", "$S"}, {"SETRANGE", "$K", "$I", "$S"},
 	{"RESTORE", "$K", "0", "$S"}, {"RESTORE", "$K", "$I", "$S", "REPLACE"},
+	// every count / cursor / offset argument as an arbitrary 64-bit number
+	{"SCAN", "$I"}, {"SCAN", "0", "COUNT", "$I"}, {"SCAN", "$I", "MATCH", "k*", "COUNT", "$I"},
+	{"HSCAN", "$K", "$I"}, {"HSCAN", "$K", "0", "COUNT", "$I"}, {"SSCAN", "$K", "$I"}, {"SSCAN", "$K", "0", "COUNT", "$I"},
+	{"SRANDMEMBER", "$K", "$I"}, {"HRANDFIELD", "$K", "$I"}, {"HRANDFIELD", "$K", "$I", "WITHVALUES"},
+	{"LMPOP", "$I", "$K", "LEFT"}, {"LMPOP", "1", "$K", "RIGHT", "COUNT", "$I"},
+	{"LPOS", "$K", "e1", "RANK", "$I"}, {"LPOS", "$K", "e1", "COUNT", "$I"}, {"LPOS", "$K", "e1", "MAXLEN", "$I"},
+	{"SINTERCARD", "$I", "$K", "k4"}, {"SINTERCARD", "2", "$K", "k4", "LIMIT", "$I"},
+	{"BITFIELD", "$K", "GET", "u8", "$I"}, {"BITFIELD", "$K", "GET", "i64", "$I"}, {"BITFIELD", "$K", "INCRBY", "u63", "$I", "$I"},
+	{"BITFIELD_RO", "$K", "GET", "i5", "$I"}, {"BITPOS", "$K", "0", "$I"}, {"BITPOS", "$K", "1", "$I", "$I", "BIT"},
+	{"LINSERT", "$K", "AFTER", "$S", "$S"}, {"SORT", "$K", "LIMIT", "$I", "$I"}, {"SORT", "$K", "LIMIT", "$I", "$I", "ALPHA", "STORE", "k5"},
 }
+
+// commands that legitimately loop or allocate by |count|: the count is
+// either small or in the region where Redis refuses it (|n| > LONG_MAX/2)
+var vL2LoopInt = map[string]bool{"SRANDMEMBER": true, "HRANDFIELD": true}
 
 // growth bound of the harness: commands that legitimately allocate by an
 // integer argument get that argument bounded (stated as outside the claim)
@@ -224,6 +238,16 @@ func vL2(mon int) {
 			}
 			d := vDecimal("i")
 			if vL2BoundedInt[t[0]] && i == 2 {
+				n := vDecimalOf(d)
+				vAssume(n < 64 || n >= 4294967296)
+			}
+			if vL2LoopInt[t[0]] {
+				n := vDecimalOf(d)
+				vAssume((n >= -3 && n <= 3) || n > 4611686018427387903 || n < -4611686018427387903)
+			}
+			if t[0] == "BITFIELD" && i == 4 {
+				// a bit offset the command accepts makes the string grow to it:
+				// growth is bounded like SETBIT's
 				n := vDecimalOf(d)
 				vAssume(n < 64 || n >= 4294967296)
 			}
